@@ -154,8 +154,21 @@ fn repoint_steps(steps: &mut [Step], from: &[String], to: &str) {
     }
 }
 
-/// R1 / R2: name a prefix of the main pipeline with let (or into) and continue from that name
-fn r1(t: &mut Tape, prog: &mut Prog, into: bool) -> Option<bool> {
+/// true if some step evaluates a window function (whose implicit ORDER BY is the sort in effect)
+fn steps_have_window(steps: &[Step]) -> bool {
+    steps.iter().any(|s| match s {
+        Step::Select(items) | Step::Derive(items) => items.iter().any(|i| i.expr.has_window()),
+        Step::Filter(e) => e.has_window(),
+        Step::Sort(keys) => keys.iter().any(|k| k.expr.has_window()),
+        Step::Window { .. } => true,
+        Step::Group { inner, .. } => inner.iter().any(|s| !matches!(s, Step::Aggregate(_))),
+        _ => false,
+    })
+}
+
+/// R1 / R2: name a prefix of the main pipeline with let (or into) and continue from that name.
+/// Returns 0 = plain prefix, 1 = sorted prefix, 2 = sorted prefix and a window function after it
+fn r1(t: &mut Tape, prog: &mut Prog, into: bool) -> Option<u8> {
     let n = prog.main.steps.len();
     if n == 0 {
         return None;
@@ -170,7 +183,7 @@ fn r1(t: &mut Tape, prog: &mut Prog, into: bool) -> Option<bool> {
     // when it is joined afterwards: mostly avoided, sometimes exercised (and attributed)
     let sorted_prefix = prog.main.steps[..k].iter().any(|s| matches!(s, Step::Sort(_)))
         || matches!(&prog.main.source.kind, SrcKind::Let(_));
-    if sorted_prefix && !t.chance(1, 8) {
+    if sorted_prefix && !t.chance(1, 2) {
         return None;
     }
     let rest: Vec<Step> = prog.main.steps.split_off(k);
@@ -194,6 +207,7 @@ fn r1(t: &mut Tape, prog: &mut Prog, into: bool) -> Option<bool> {
     });
     let idx = prog.lets.len() - 1;
     let mut rest = rest;
+    let window_after = steps_have_window(&rest);
     repoint_steps(&mut rest, &[old_rel], &name);
     prog.main = Pipeline {
         source: Source {
@@ -202,7 +216,7 @@ fn r1(t: &mut Tape, prog: &mut Prog, into: bool) -> Option<bool> {
         },
         steps: rest,
     };
-    Some(sorted_prefix)
+    Some(if !sorted_prefix { 0 } else if window_after { 2 } else { 1 })
 }
 
 /// R3: replace an expression by a call to a user function whose body is that expression
@@ -320,8 +334,8 @@ pub fn gen_case(t: &mut Tape) -> Case {
         let done = match t.choose(6) {
             0 => r4(t, &mut p.main.steps).then_some("R4 filter split/merge"),
             1 => r5(t, &mut p.main.steps).then_some("R5 identity filter"),
-            2 => r1(t, &mut p, false).map(|s| if s { "R1 let extraction (sorted prefix)" } else { "R1 let extraction" }),
-            3 => r1(t, &mut p, true).map(|s| if s { "R2 into extraction (sorted prefix)" } else { "R2 into extraction" }),
+            2 => r1(t, &mut p, false).map(|s| ["R1 let extraction", "R1 let extraction (sorted prefix)", "R1 let extraction (sorted prefix, window after)"][s as usize]),
+            3 => r1(t, &mut p, true).map(|s| ["R2 into extraction", "R2 into extraction (sorted prefix)", "R2 into extraction (sorted prefix, window after)"][s as usize]),
             4 => r3(t, &mut p).then_some("R3 function abstraction"),
             _ => r6(&mut p).then_some("R6 move into module"),
         };
@@ -390,6 +404,27 @@ pub fn check(c: &Case, _known: &Known) -> Outcome {
             let extracted = c.rewrites.iter().any(|r| r.starts_with("R1") || r.starts_with("R2"));
             if e.msg().contains("syntax error") && sql2.contains(" OFFSET ") && _known.is_open("C07-offset-without-limit") {
                 o.verdict = Verdict::Known("C07-offset-without-limit".into(), "an open-ended take separated from its bounding take".into());
+            } else if c.rewrites.iter().any(|r| r.contains("window after)"))
+                && e.msg().contains("requires one ORDER BY")
+                && _known.is_open("C06-let-sort-not-applied-to-windows")
+            {
+                // the window lost its ORDER BY: a RANGE frame with offsets is then not even valid
+                o.verdict = Verdict::Known(
+                    "C06-let-sort-not-applied-to-windows".into(),
+                    "let-extraction of a sorted prefix followed by a range window".into(),
+                );
+            } else if extracted
+                && e.msg().contains("no such column: c")
+                && sql2.contains(" AS _expr_")
+                && sql2.contains("SELECT *")
+                && _known.is_open("C07-wildcard-let-derive-name")
+            {
+                // the named prefix has a wildcard frame and a derive: the derived column is called
+                // _expr_N inside the CTE and by its alias outside
+                o.verdict = Verdict::Known(
+                    "C07-wildcard-let-derive-name".into(),
+                    "let-extraction of a wildcard prefix that contains a derive".into(),
+                );
             } else if extracted && e.msg().contains("no such column") && sql2.contains("ORDER BY") && _known.is_open("C07-sorted-cte-order-by-scope") {
                 o.verdict = Verdict::Known(
                     "C07-sorted-cte-order-by-scope".into(),
@@ -417,7 +452,7 @@ pub fn check(c: &Case, _known: &Known) -> Outcome {
         return out;
     }
     let differs = r1.cols.len() != r2.cols.len() || rows_key(&r1.cols, &r1.rows) != rows_key(&r2.cols, &r2.rows);
-    if differs && c.rewrites.iter().any(|r| r.contains("(sorted prefix)")) && _known.is_open("C06-let-sort-not-applied-to-windows") {
+    if differs && c.rewrites.iter().any(|r| r.contains("window after)")) && _known.is_open("C06-let-sort-not-applied-to-windows") {
         out.verdict = Verdict::Known(
             "C06-let-sort-not-applied-to-windows".into(),
             "let-extraction of a sorted prefix followed by window functions".into(),
